@@ -1204,11 +1204,14 @@ def execCmd : Cmd → Run
       | some st2 => ⟨.ok, r.1.ctx, st2⟩
     | _ => r.1
   | .headerParam .., ctx, st => ⟨.ok, ctx, st⟩
-  -- file-level nodes never occur below a template body (the parser does not produce them there);
-  -- Go: "unknown node" for namespace / soydoc.  A nested template node is treated alike.
+  -- a /** */ comment inside a template body renders nothing (/repo 79017f3)
+  | .soyDoc .., ctx, st => ⟨.ok, ctx, st⟩
+  -- Go: "unknown node" for a {namespace} tag in a body.
+  -- NOT FOLLOWED: a {template} tag inside a body — Go walks its body in the current frame with the mode
+  -- `tag's autoescape attribute, else the enclosing mode`, restored afterwards (exec.go walk, TemplateNode);
+  -- the model answers "error" (the mode is a fixed parameter of this walk; see Props/C03b)
   | .namespace .., ctx, st => ⟨.err, ctx, st⟩
   | .template .., ctx, st => ⟨.err, ctx, st⟩
-  | .soyDoc .., ctx, st => ⟨.err, ctx, st⟩
 /-- `s.walk(listNode)`: the children in order, in the current frame -/
 def execBody : Block → Run
   | .mk p cmds, ctx, st => execCmds cmds ctx (atNode st p)
